@@ -47,10 +47,16 @@ func (a *SparseInt16Vector) EQUALS(b *SparseInt16Vector, epsilon float64) bool {
   for it := a.JOINT_ITERATOR_(b); it.Ok(); it.Next() {
     s1, s2 := it.GET()
     if s1.ptr == nil {
-      return false
+      if !ConstInt16(0.0).Equals(s2, epsilon) {
+        return false
+      }
+      continue
     }
     if s2.ptr == nil {
-      return false
+      if !s1.Equals(ConstInt16(0.0), epsilon) {
+        return false
+      }
+      continue
     }
     if !s1.EQUALS(s2, epsilon) {
       return false
